@@ -158,4 +158,56 @@ theorem src_encode_variable_int_neg (v : Int) (h : v < 0) :
     Src.encode_variable_int v = .error .ValueError := by
   simp [Src.encode_variable_int, h, bind, Except.bind, throw, throwThe, MonadExceptOf.throw]
 
+/-! ### `read_variable_int` of midifiles.py (the reader side) -/
+
+theorem vlq_step (acc b : Nat) :
+    lor (shlN (acc : Int) 7) (land (b : Int) 127) = ((acc * 128 + b % 128 : Nat) : Int) := by
+  rw [shlN_ofNat, land_lit_right, lor_ofNat]
+  congr 1
+  have h1 : b &&& 127 = b % 128 := Nat.and_two_pow_sub_one_eq_mod b 7
+  have h2 : b % 128 < 2 ^ 7 := by omega
+  rw [h1, ← Nat.shiftLeft_add_eq_or_of_lt h2, Nat.shiftLeft_eq]
+
+set_option maxRecDepth 4000 in
+theorem src_read_vlq_loop : ∀ (bs : List Nat) (fuel acc : Nat), bs.length < fuel →
+    Src.read_variable_int.loop1 fuel (natsToInts bs) (acc : Int) =
+      match readVlqAcc acc bs with
+      | .ok (v, r) => .ok (Sum.inl ((v : Int), natsToInts r))
+      | .error e => .error e
+  | [], fuel, acc, h => by
+    match fuel with
+    | 0 => omega
+    | f + 1 => simp [Src.read_variable_int.loop1, readVlqAcc, natsToInts, readByte, bind, Except.bind]
+  | b :: rest, fuel, acc, h => by
+    match fuel with
+    | 0 => simp at h
+    | f + 1 =>
+      have ih := src_read_vlq_loop rest f (acc * 128 + b % 128) (by simp at h; omega)
+      rw [Src.read_variable_int.loop1, readVlqAcc]
+      simp only [natsToInts, List.map_cons, readByte]
+      simp only [bind, Except.bind, pure, Except.pure, if_true, Int.ofNat_eq_natCast, vlq_step]
+      by_cases hb : b < 128
+      · have hb' : ((b : Int) < 128) := by omega
+        simp [hb, hb']
+      · have hb' : ¬ ((b : Int) < 128) := by omega
+        simp only [hb, hb', decide_false, Bool.false_eq_true, if_false]
+        simpa [natsToInts] using ih
+
+/-- `read_variable_int`, as translated from the source, is the model's `readVlq` on every byte list: value and the
+    unread rest, or `EOFError` when the input ends inside the quantity -/
+theorem src_read_variable_int (bs : List Nat) :
+    Src.read_variable_int (natsToInts bs) =
+      match readVlq bs with
+      | .ok (v, r) => .ok ((v : Int), natsToInts r)
+      | .error e => .error e := by
+  have h := src_read_vlq_loop bs (bs.length + 1) 0 (by omega)
+  have hl : (natsToInts bs).length = bs.length := by simp [natsToInts]
+  simp only [Src.read_variable_int, hl, bind, Except.bind, pure, Except.pure]
+  have h0 : ((0 : Nat) : Int) = 0 := rfl
+  rw [h0] at h
+  rw [h, readVlq]
+  cases readVlqAcc 0 bs with
+  | error e => rfl
+  | ok p => rfl
+
 end Mido
